@@ -22,6 +22,7 @@ EXPLANATION = (
     "counter over range(n_ancilla_qubits); (D5) inverse() and controlled() keep no state: no attribute stored on the "
     "receiver or an argument, no module-level table, no mutable default."
     " Round 5: (D6) the embedding entry points as decided by C01-D5, including the twins' single exit."
+    ' Round 6: (D7) stale loop variables.'
 )
 RULE_TEXT = "instances = comprehension/loop elements, index expressions, width expressions and (function, parameter) purity pairs of the five anchored functions; distinct by (rule, construct)"
 ASSUMPTIONS = [
